@@ -353,10 +353,10 @@ func init() {
 	}
 }
 
-func init() {
-	for i := range opSpecs {
-		mk := opSpecs[i].mk
-		opSpecs[i].build = func(p []int, variant string, cbs []Cb, src ro.Observable[int]) (attachFn, error) {
+func deriveBuild(specs []OpSpec) {
+	for i := range specs {
+		mk := specs[i].mk
+		specs[i].build = func(p []int, variant string, cbs []Cb, src ro.Observable[int]) (attachFn, error) {
 			ap, err := mk(p, variant, cbs)
 			if err != nil {
 				return nil, err
@@ -366,10 +366,28 @@ func init() {
 	}
 }
 
+func init() {
+	opSpecs = append(opSpecs, moreOpSpecs()...) // more.go: the operators of lean/RoModel/Ops/More.lean
+	extraOpSpecs = append(extraOpSpecs, moreExtraOpSpecs()...)
+	deriveBuild(opSpecs)
+	deriveBuild(extraOpSpecs)
+}
+
+// extraOpSpecs: operators that can be run by name (kind=op replay, the `opsmore` generator of more.go)
+// but are NOT enumerated by the generators that walk opSpecs (ops, chains, reuse, cancel): operators whose
+// documented behaviour is outside the oracle of a property that shares those runs (ContextReset replaces
+// the context by definition, so C09's "subscription marker present" oracle does not apply to it).
+var extraOpSpecs []OpSpec
+
 func findOp(name string) *OpSpec {
 	for i := range opSpecs {
 		if opSpecs[i].name == name {
 			return &opSpecs[i]
+		}
+	}
+	for i := range extraOpSpecs {
+		if extraOpSpecs[i].name == name {
+			return &extraOpSpecs[i]
 		}
 	}
 	return nil
@@ -400,6 +418,8 @@ func cbChoices(kind, variant string) []string {
 		return []string{"add", "mad"}
 	case "key":
 		return []string{"mod2", "id", "sq"}
+	case "ctag": // ContextMap / ContextMapI: the projection adds marker t (plain) or t+index (i)
+		return []string{"ctag+t50", "ctag+t53"}
 	}
 	return nil
 }
